@@ -128,6 +128,40 @@ def specRestart (last : Option Ev) : Track :=
   | some e => if e.level != 0 then { level := e.level, leftOK := some (e.time - e.dur), lastAlert := some e.time } else {}
   | none => {}
 
+/-! ### Inhibition
+
+"Inhibit other alerts in a category" (pipeline/alert.go `Inhibit`): while an ID of an alert declared with
+`.inhibit(cat, tags…)` IS NOT OK — its level after its most recent point is not OK — every event of an alert of
+category `cat` whose tags agree with that ID on the declared tags is kept from the handlers. Stated on the LEVEL of the
+inhibiting ID (from its level history), not on what events it sent: no-recoveries, state-changes-only on the
+inhibitor change nothing about when it is OK. The inhibited alert's own state machine is untouched (its levels,
+durations, "last alert"), and its data is forwarded all the same. -/
+
+/-- Does an inhibiting ID at level `aLevel`, declared `.inhibit(cat, tags…)` with the ID's tag values `tagset`, inhibit
+an event of category `evCat` with tags `evTags`? (a tag the event lacks reads as "") -/
+def inhibits (aLevel : Nat) (cat : String) (tagset : List (String × String))
+    (evCat : String) (evTags : List (String × String)) : Bool :=
+  aLevel != 0 && cat == evCat &&
+  tagset.all (fun kv => ((evTags.find? (fun e => e.1 == kv.1)).map (·.2)).getD "" == kv.2)
+
+/-- The two-ID world on the spec side: the tracks of A's ID and of B's ID. -/
+structure SWorld where
+  a : Track := {}
+  b : Track := {}
+deriving Repr, Inhabited
+
+/-- `hit` = A's declaration matches B's events in category and tags. B's event reaches B's handlers iff the emission
+rule delivers it AND A's ID is OK (or does not match). -/
+def specWorldStep (ca cb : Cfg) (hit : Bool) (w : SWorld) : WOp → SWorld × Option Ev × Option Ev
+  | .pa p => let r := specPoint ca w.a p false; ({ w with a := r.1 }, r.2, none)
+  | .pb p =>
+    let r := specPoint cb w.b p false
+    ({ w with b := r.1 }, none, if w.a.level != 0 && hit then none else r.2)
+
+def specRunWorld (ca cb : Cfg) (hit : Bool) (w : SWorld) : List WOp → List (Option Ev × Option Ev)
+  | [] => []
+  | op :: ops => let r := specWorldStep ca cb hit w op; r.2 :: specRunWorld ca cb hit r.1 ops
+
 /-! ### What is forwarded downstream (the second place the events are observed)
 
 For every delivered event — and for nothing else — the alert node forwards the data that triggered it: the point
